@@ -94,6 +94,7 @@ TStep ==
           /\ Chk("C10", "RejectedIsNoop", (~e.ok) => (VR' = VR /\ AbsSM(SM, epoch) = AbsSM(SM', epoch)), e)
           /\ Note(e.a = "Extend" /\ e.ok /\ \E i \in 1..Len(e.decls) : SeqSet(e.decls[i].maintain) \cap G.dropped # {},
                   "dropped-claim-substitution")
+          /\ Note(e.a # "Tick" /\ e.class = "panic", "panic-" \o e.a)
           /\ (IF Explained(e) THEN TRUE ELSE PrintT(<<"DRIFT", "C10", l, e.a, e.ok>>))
 TInit == /\ VR = [verifiers |-> <<>>, tok |-> [h \in Holders |-> 0], supply |-> 0, allocs |-> <<>>, claims |-> <<>>, next |-> 1]
          /\ SM = [sec |-> <<>>, alloc |-> {}, off |-> 0]
